@@ -90,10 +90,16 @@ known("C04", r"^asm_expr\|(imm8|imm16|mem|mem16|jmp|extind|idx|idx16)/[^|]*\|(C0
       "operand width of a symbol / expression operand follows the magnitude or spelling of the value instead of the instruction "
       "(LDA #V+1 -> 3 bytes, LDX #V -> 2 bytes, JMP L below $100 -> 2 bytes): size and bytes disagree",
       {"asm": ["V EQU $0199", " LDA #V"]}, also=("C02", "C12", "C01"))
-known("C04", r"^asm_expr\|[^|]*\|C04:value\|[^|]*:value-mismatch",
-      "expression value is not the arithmetic value: n-L computed as L-n, label op label uses the second label's statement index, "
-      "negative results are rendered as 8-bit two's complement, symbols in FCB/FDB are not resolved",
-      {"asm": ["L NOP", "M NOP", " LDX #L+M"]}, also=("C05",))
+known("C04", r"^asm_expr\|(imm16|mem|mem16|jmp|extind)/[^|]*-[^|]*\|C04:value\|[^|]*:value-mismatch[^|]*:val=-",
+      "a subtraction with a negative result is rendered as an 8-bit two's complement (or wraps wrongly) instead of the 16-bit value "
+      "modulo 65536 or a rejection (LDX #5-9)", {"asm": [" LDX #$0099-$9A"]})
+known("C04", r"^asm_expr\|\w+/[^|]*-label-(before|after)\|(C04:value|C04:accepted)\|",
+      "number - label and EQU - label are computed as label - number", {"asm": ["L NOP", " LDX #$0100-L"]})
+known("C04", r"^asm_expr\|\w+/label-(before|after)[+-]label-(before|after)\|(C04:value|C04:accepted)\|",
+      "label + label / label - label use the second label's statement index instead of its address", {"asm": ["L NOP", "M NOP", " LDX #L+M"]})
+known("C04", r"^asm_expr\|(fcb|fdb)/[^|]*\|C04:value\|(fcb|fdb):[^|]*:(value-mismatch|count=\d+)",
+      "FCB / FDB with a symbol or an expression operand: symbols are not resolved / the result is rendered at the wrong width",
+      {"asm": ["V EQU $000A", " FCB V"]}, also=("C05",))
 known("C04", r"^asm_expr\|[^|]*\|C04:width\|[^|]*:unfit-accepted",
       "an expression result that does not fit the operand width is accepted (LDA #0-129)", {"asm": [" LDA #$00-129"]}, also=("C12",))
 known("C04", r"^asm_expr\|equ/[^|]*\|C04:value\|equ:[^|]*:equ-(value=|symbol-has-no-value)",
